@@ -7,7 +7,7 @@ from vt.props.c15 import NREP
 ID = 'C19'
 LEVEL = 'exploration'
 RULE = ('evaluators: complete enumeration of state dimension {1,2,3} x diffusion column count {1,2,3} (square and non-square) x '
-        'product basis (2-3 modes x 1-3 twice-differentiable functions) and, per point, ALL index tuples s and ALL diffusion '
+        'product basis (2-3 modes x 1-3 twice-differentiable functions; bundled one-coordinate families, and a user-defined function of two coordinates with mixed second derivatives) and, per point, ALL index tuples s and ALL diffusion '
         'columns i at three sample points, against b.grad f + 1/2 a:Hess f and grad f . sigma_i with the gradient of the PRODUCT '
         'obtained by complex-step differentiation and its Hessian by central differences of that gradient. amuset_hosvd: '
         'complete enumeration of d {1,2} x d2 {1,2,3} x m {4,6,9} x basis x drift {given, None} x reweight {None, positive} x '
@@ -31,8 +31,44 @@ def funcs(coord):
             tdt.ConstantFunction(coord)]
 
 
-def make_basis(ws, d):
-    return [[funcs((kk + j) % d)[(s + j) % NREP] for j in range(n)] for kk, (s, n) in enumerate(ws)]
+_CPL = {}
+
+
+def coupled(c0, c1):
+    """a user-defined basis function of TWO coordinates, sin(x_c0 + 0.5 x_c1), written against the library's Function base
+    class (the bundled families all depend on one coordinate, so mixed second derivatives only arise this way)"""
+    import scikit_tt.data_driven.transform as tdt
+    if 'cls' not in _CPL:
+        class Coupled(tdt.Function):
+            def __init__(self, c0, c1, dimension=None):
+                super(Coupled, self).__init__(dimension)
+                self.c0, self.c1 = c0, c1
+
+            def _w(self, k):
+                return (1.0 if k == self.c0 else 0.0) + (0.5 if k == self.c1 else 0.0)
+
+            def __call__(self, t):
+                self.check_call_input(t)
+                return np.sin(t[self.c0] + 0.5 * t[self.c1])
+
+            def partial(self, t, direction):
+                self.check_partial_input(t, direction)
+                return self._w(direction) * np.cos(t[self.c0] + 0.5 * t[self.c1])
+
+            def partial2(self, t, direction1, direction2):
+                self.check_partial2_input(t, direction1, direction2)
+                return -self._w(direction1) * self._w(direction2) * np.sin(t[self.c0] + 0.5 * t[self.c1])
+        _CPL['cls'] = Coupled
+    return _CPL['cls'](c0, c1)
+
+
+def make_basis(ws, d, cpl=False):
+    basis = [[funcs((kk + j) % d)[(s + j) % NREP] for j in range(n)] for kk, (s, n) in enumerate(ws)]
+    if cpl:
+        basis[-1][0] = coupled(0, 1)         # the last mode starts with a function of coordinates 0 and 1
+        if len(basis[0]) > 1:
+            basis[0][-1] = coupled(1, 0)
+    return basis
 
 
 def cases(tier):
@@ -45,6 +81,8 @@ def cases(tier):
                     if p == 3 and q and sum(w[1] for w in ws) > 6:
                         continue
                     yield {'k': 'gen', 'd': d, 'd2': d2, 'ws': [list(w) for w in ws]}
+                    if d >= 2 and p == 2:
+                        yield {'k': 'gen', 'd': d, 'd2': d2, 'ws': [list(w) for w in ws], 'cpl': True}
     for d in ((1, 2) if q else (1, 2, 3)):
         for d2 in (1, 2, 3):
             for m in ((4, 6, 9) if q else (4, 6, 9, 12)):
@@ -59,6 +97,11 @@ def cases(tier):
                                                 continue
                                             yield {'k': 'amuset', 'd': d, 'd2': d2, 'm': m, 'ws': [list(w) for w in ws], 'b': bg, 'rw': rw,
                                                    'rel': rel, 'mr': mr, 'nev': nev, 'ro': ro}
+                            if d >= 2:
+                                # a user-defined basis function of two coordinates (mixed second derivatives x correlated diffusion)
+                                for ro in ('eigenfunctionevals', 'eigentensors'):
+                                    yield {'k': 'amuset', 'd': d, 'd2': d2, 'm': m, 'ws': [list(w) for w in ws], 'b': bg, 'rw': rw,
+                                           'rel': False, 'mr': 'inf', 'nev': 'inf', 'ro': ro, 'cpl': True}
                             # a generator of tiny magnitude (drift and diffusion covariance scaled by 1e-10) and integer-dtype data
                             for var in ('tiny', 'intdata'):
                                 yield {'k': 'amuset', 'd': d, 'd2': d2, 'm': m, 'ws': [list(w) for w in ws], 'b': bg, 'rw': rw,
@@ -104,7 +147,7 @@ def run_case(case, seed):
     rng = rng_for(case, seed)
     r.nontrivial = True
     d, d2 = case['d'], case['d2']
-    basis = make_basis(case['ws'], d)
+    basis = make_basis(case['ws'], d, case.get('cpl', False))
     n = [len(bb) for bb in basis]
     sq = 'square' if d == d2 else 'nonsquare'
     if case['k'] == 'gen':
